@@ -270,3 +270,117 @@ def incomplete_op_not_serialised():
     if k == 5:
         blk = ops.DataflowBlock([tys.Bool], _sum=tys.Bool)  # one of two fields set
         sym.check("partially_set_block_refused", _raises(lambda: blk._to_serial(Node(0)), ops.IncompleteOp))
+
+
+# ---------------------------------------------------------------------------
+# structural refusals: NoSiblingAncestor / NotInSameCfg (shared with C01: order edges)
+# ---------------------------------------------------------------------------
+def _ancestors(h, n):
+    out = []
+    p = h[n].parent
+    while p is not None:
+        out.append(p)
+        p = h[p].parent
+    return out
+
+
+def _hierarchy():
+    """Dfg root with nested regions three levels deep and a sibling region."""
+    d0 = Dfg(tys.Bool, tys.Bool)
+    a0 = d0.add_op(ops.Custom("a0", tys.FunctionType([tys.Bool], [tys.Bool]), extension="e"), d0.inputs()[0])
+    d1 = d0.add_nested(d0.inputs()[1])
+    a1 = d1.add_op(ops.Custom("a1", tys.FunctionType([tys.Bool], [tys.Bool]), extension="e"), d1.inputs()[0])
+    d2 = d1.add_nested(a1[0])
+    a2 = d2.add_op(ops.Custom("a2", tys.FunctionType([tys.Bool], [tys.Bool]), extension="e"), d2.inputs()[0])
+    d1b = d0.add_nested(a0[0])
+    a1b = d1b.add_op(ops.Custom("a1b", tys.FunctionType([tys.Bool], [tys.Bool]), extension="e"), d1b.inputs()[0])
+    return d0, [d0, d1, d2, d1b]
+
+
+@lemma("C13", bounds="a 4-region hierarchy (depth 3 plus a sibling region, 15 nodes); wire source = output 0 of ANY node of the hierarchy "
+                     "(root, Input/Output nodes, operations, region parents), target = a new operation in ANY region",
+       outside="deeper hierarchies")
+def wire_needs_sibling_ancestor():
+    d0, builders = _hierarchy()
+    h = d0.hugr
+    n_nodes = len(h)
+    s = sym.int("src", 0, n_nodes - 1)
+    src = Node(sym.concretize(s))
+    bld = builders[sym.concretize(sym.int("region", 0, len(builders) - 1))]
+    region = bld.parent_node
+    src_parent = h[src].parent
+    related = src_parent is not None and (src_parent == region or src_parent in _ancestors(h, region))
+    op = ops.Custom("new", tys.FunctionType([tys.Bool], []), extension="e")
+    try:
+        new = bld.add_op(op, src.out(0))
+        outcome = "ok"
+    except NoSiblingAncestor:
+        outcome = "NoSiblingAncestor"
+    except Exception:  # noqa: BLE001
+        outcome = "OtherError"  # related, but not a (complete) dataflow value port: ValueError / IncompleteOp / InvalidPort
+    sym.check("unrelated_source_refused_with_NoSiblingAncestor", (outcome == "NoSiblingAncestor") == (not related))
+    if outcome == "ok":
+        sym.check("link_recorded", h.has_link(src.out(0), new.inp(0)))
+        # the order edge goes to the ancestor of the new node that is a sibling of the source
+        if src_parent == region:
+            sym.check("local_wire_has_no_order_edge", list(h.outgoing_order_links(src)) == [])
+        else:
+            anc = [x for x in [region] + _ancestors(h, region) if h[x].parent == src_parent]
+            sym.check("nonlocal_wire_gets_order_edge_to_sibling_ancestor", list(h.outgoing_order_links(src)) == anc[:1])
+
+
+def _cfg_hierarchy():
+    d0 = Dfg(tys.Bool, tys.Bool)
+    v0 = d0.add_op(ops.Custom("v0", tys.FunctionType([tys.Bool], [tys.Bool]), extension="e"), d0.inputs()[0])
+    c = d0.add_cfg(d0.inputs()[0])
+    e = c.add_entry()
+    ve = e.add_op(ops.Custom("ve", tys.FunctionType([tys.Bool], [tys.Bool]), extension="e"), e.inputs()[0])
+    de = e.add_nested(ve[0])                      # a region nested inside the entry block
+    vde = de.add_op(ops.Custom("vde", tys.FunctionType([tys.Bool], [tys.Bool]), extension="e"), de.inputs()[0])
+    de.set_outputs(vde[0])
+    e.set_single_succ_outputs(ve[0])
+    b = c.add_successor(e[0])
+    c2 = d0.add_cfg(d0.inputs()[1])
+    e2 = c2.add_entry()
+    ve2 = e2.add_op(ops.Custom("ve2", tys.FunctionType([tys.Bool], [tys.Bool]), extension="e"), e2.inputs()[0])
+    return d0, c, e, b, c2, {"v0": v0, "ve": ve, "vde": vde, "ve2": ve2, "in_d0": d0.input_node, "in_e": e.input_node, "in_b": b.input_node,
+                             "entry": e.parent_node, "cfg": c.parent_node, "cfg2": c2.parent_node, "root": d0.parent_node}
+
+
+@lemma("C13", bounds="two CFGs inside a Dfg; wire into a new operation of a non-entry block from: its own block, the enclosing Dfg (Ext), the "
+                     "entry block (Dom), a region nested in the entry block, the other CFG, block / CFG / root nodes themselves",
+       outside="dominance between non-entry blocks (not decidable by the builder at wiring time; premise of C01)")
+def block_wire_must_come_from_same_cfg():
+    d0, c, e, b, c2, srcs = _cfg_hierarchy()
+    h = d0.hugr
+    names = sorted(srcs)
+    name = names[sym.concretize(sym.int("src", 0, len(names) - 1))]
+    src = srcs[name]
+    op = ops.Custom("new", tys.FunctionType([tys.Bool], []), extension="e")
+    try:
+        new = b.add_op(op, src.out(0))
+        outcome = "ok"
+    except NotInSameCfg:
+        outcome = "NotInSameCfg"
+    except NoSiblingAncestor:
+        outcome = "NoSiblingAncestor"
+    except Exception:  # noqa: BLE001
+        outcome = "OtherError"
+    # reference rule (validate.rs): Ext edge = source's parent is an ancestor region of the target;
+    # Dom edge = source's parent is a block of the same CFG as the target's block
+    ext_ok = name in ("v0", "in_d0", "in_b", "cfg", "cfg2", "entry")  # parent is b, c or d0
+    dom_ok = name in ("ve", "in_e")                                     # parent is the entry block
+    outside = name in ("ve2", "root")
+    nested_in_block = name == "vde"
+    if outside:
+        sym.check("source_outside_cfg_refused", outcome in ("NotInSameCfg", "NoSiblingAncestor"))
+    elif nested_in_block:
+        sym.check("source_hidden_inside_region_of_other_block_refused", outcome != "ok")
+    else:
+        sym.check("visible_source_accepted_or_non_value_port_refused", outcome in ("ok", "OtherError"))
+    if outcome == "ok":
+        sym.check("link_recorded", h.has_link(src.out(0), new.inp(0)))
+        if dom_ok:
+            sym.check("dom_edge_has_no_order_edge", list(h.outgoing_order_links(src)) == [])
+        if name in ("v0", "in_d0"):
+            sym.check("ext_edge_into_block_gets_order_edge_to_cfg", list(h.outgoing_order_links(src)) == [c.parent_node])
